@@ -486,7 +486,7 @@ func (m *c22Machine) restart(idx int, noSnapOnClose bool) {
 	}
 	n.s.NoSnapshotOnClose = noSnapOnClose
 	addr := n.s.Addr()
-	if err := n.s.Close(true); err != nil {
+	if err := g8aClose(n.s); err != nil {
 		m.fail("C22/close-error", "close failed: %v", err)
 	}
 	n.s.ly.Close()
@@ -633,7 +633,7 @@ func c22Case(rt *rapid.T, rec *vstat.Rec) {
 		for _, i := range order {
 			n := m.nodes[i]
 			addrs[i] = n.s.Addr()
-			if err := n.s.Close(true); err != nil {
+			if err := g8aClose(n.s); err != nil {
 				m.fail("C22/close-error", "close failed: %v", err)
 			}
 			n.s.ly.Close()
